@@ -13,22 +13,22 @@ import (
 // (syscall/js modelled) and natively under Node.
 
 type h19Cell struct {
-	s              string
-	fg, bg, attrs  int
-	us, uc         int
-	stamp          int
+	s             string
+	fg, bg, attrs int
+	us, uc        int
+	stamp         int
 }
 
 type h19Page struct {
-	w, h     int
-	cells    []h19Cell
-	shows    int
-	clears   int
-	cx, cy   int
-	blk      int
-	oob      int // draw calls outside the page
-	resizes  int
-	beeps    int
+	w, h    int
+	cells   []h19Cell
+	shows   int
+	clears  int
+	cx, cy  int
+	blk     int
+	oob     int // draw calls outside the page
+	resizes int
+	beeps   int
 }
 
 func h19Install(w, h int) *h19Page {
